@@ -56,7 +56,7 @@ pub fn c15_log10_domain() {
 //@ id=C15 tier=quick to=900 cfg=std exh=1 desc="ground exact points on the real code: ln(1) == 0, log2(1) == 0, log10(1) == 0, ln_1p(+-0) == 0"
 #[cfg_attr(kani, kani::proof)]
 pub fn c15_exact_points() {
-    let one = tf(1.0, 0.0);
+    let one = gtf(1.0, 0.0);
     let a = one.ln();
     assert!(a.hi() == 0.0 && a.lo() == 0.0);
     if !crate::gen_cells::known("c15_log2_one") {
@@ -65,9 +65,9 @@ pub fn c15_exact_points() {
     }
     let c = one.log10();
     assert!(c.hi() == 0.0 && c.lo() == 0.0);
-    let d = tf(0.0, 0.0).ln_1p();
+    let d = gtf(0.0, 0.0).ln_1p();
     assert!(d.hi() == 0.0 && d.lo() == 0.0);
-    let e = tf(-0.0, 0.0).ln_1p();
+    let e = gtf(-0.0, 0.0).ln_1p();
     assert!(e.hi() == 0.0 && e.lo() == 0.0);
     reached();
 }
@@ -96,7 +96,7 @@ pub fn c15_no_own_panic() {
 
 /// log2(2^k) == k exactly: ground on the real code (two Newton steps through exp2)
 pub fn log2_pow2(k: i32) {
-    let x = tf(f64::from_bits(((k + 1023) as u64) << 52), 0.0);
+    let x = gtf(f64::from_bits(((k + 1023) as u64) << 52), 0.0);
     let r = x.log2();
     assert!(r.hi() == k as f64 && r.lo() == 0.0);
     reached();
